@@ -370,16 +370,21 @@ Definition table_cand (endp : nat) (d : dentry) : cand :=
 (* LazyTableTranslation state: iter_, limit_, iter_.entry_count() *)
 Definition lazy_state := (list chunk * nat * nat)%type.
 
-Definition fetch_more (pr : prism) (syls : list (nat * text)) (t : table) (inp : text) (st : lazy_state) : lazy_state :=
+(* [presort] = the Sort() calls added to FetchMoreTableEntries / TableTranslator::Query by the repair of the
+   "first candidate is not the best" defect (fix: 3b72e76); [presort = false] is the code before the repair *)
+Definition maybe_sort (presort : bool) (cs : list chunk) : list chunk := if presort then sort_head cs else cs.
+
+Definition fetch_more (presort : bool) (pr : prism) (syls : list (nat * text)) (t : table) (inp : text) (st : lazy_state)
+  : lazy_state :=
   let '(it, limit, cnt) := st in
   if limit =? 0 then st
   else
     let r := lookup_words pr syls t inp true limit in
     let limit' := if fst r <? limit then 0 else limit * 10 in
-    if cnt <? total (snd r) then (skip (snd r) cnt, limit', total (snd r)) else (it, limit', cnt).
+    if cnt <? total (snd r) then (maybe_sort presort (skip (snd r) cnt), limit', total (snd r)) else (it, limit', cnt).
 
-Fixpoint lazy_drain (pr : prism) (syls : list (nat * text)) (t : table) (inp : text) (fuel : nat) (st : lazy_state)
-  : list dentry :=
+Fixpoint lazy_drain (presort : bool) (pr : prism) (syls : list (nat * text)) (t : table) (inp : text) (fuel : nat)
+         (st : lazy_state) : list dentry :=
   match fuel with
   | 0 => []
   | S f =>
@@ -388,8 +393,8 @@ Fixpoint lazy_drain (pr : prism) (syls : list (nat * text)) (t : table) (inp : t
       | None => []
       | Some d =>
           let it1 := iter_next it in
-          let st1 := match it1 with [] => fetch_more pr syls t inp (it1, limit, cnt) | _ => (it1, limit, cnt) end in
-          d :: lazy_drain pr syls t inp f st1
+          let st1 := match it1 with [] => fetch_more presort pr syls t inp (it1, limit, cnt) | _ => (it1, limit, cnt) end in
+          d :: lazy_drain presort pr syls t inp f st1
       end
   end.
 
@@ -469,20 +474,24 @@ Definition table_sentence (pr : prism) (syls : list (nat * text)) (t : table) (d
   end.
 
 (** TableTranslator::Query *)
-Definition table_query (completion sentence_on : bool) (pr : prism) (syls : list (nat * text)) (t : table)
+Definition table_entries (presort completion : bool) (pr : prism) (syls : list (nat * text)) (t : table) (code : text)
+  : list dentry :=
+  if completion
+  then lazy_drain presort pr syls t code (lazy_fuel pr syls t code) (fetch_more presort pr syls t code ([], 10, 0))
+  else drain_all (maybe_sort presort (snd (lookup_words pr syls t code false 0))).
+
+Definition table_query_gen (presort completion sentence_on : bool) (pr : prism) (syls : list (nat * text)) (t : table)
            (delims : text) (inp : text) : list cand :=
   let code := trim_right delims inp in
-  let ents :=
-    if completion
-    then lazy_drain pr syls t code (lazy_fuel pr syls t code) (fetch_more pr syls t code ([], 10, 0))
-    else drain_all (snd (lookup_words pr syls t code false 0)) in
-  match ents with
+  match table_entries presort completion pr syls t code with
   | [] => if sentence_on then match table_sentence pr syls t delims inp with
                               | Some l => distinct [] l
                               | None => []
                               end
           else []
-  | _ => distinct [] (map (table_cand (length inp)) ents)
+  | ents => distinct [] (map (table_cand (length inp)) ents)
   end.
+
+Definition table_query := table_query_gen true.
 
 End WithPoet.
